@@ -30,7 +30,7 @@ Fixpoint sx_hash (s : sx) : Z :=
 (* (0 payload) -> (0 hash(payload)) for the bulky kinds; small observations stay in clear *)
 Definition compact_stmt (s : stmt) (o : sx) : sx :=
   match s, o with
-  | (OFormat _ _ | OChunkIndex _ _ | OChunkSlice _ _ _ | OChunkFormat _ _), SL [SZ 0; payload] =>
+  | (OFormat _ _ | OChunkIndex _ _ | OChunkSlice _ _ _ | OChunkFormat _ _ | OIter _ | ORevIter _), SL [SZ 0; payload] =>
       SL [SZ 0; SZ (sx_hash payload)]
   | _, _ => o
   end.
